@@ -294,6 +294,23 @@ def run(repo='/repo', tier='quick'):
     res.assumptions.append('equality with an abstract sequence / multimap model on values is not decided; byte-string scan loops are covered by the guarded-read rules of C01')
     c17d(db, res)
     c17e(db, res)
+    # ---- C17.f ring cursors are rewound only at the wrap or together
+    res.rule('C17.f', 'ring cursors are rewound only at the wrap or together: every store `first = 0` / `last = 0` of the list is on the true edge of `<cursor> == max_size` (the wrap), or in a step that rewinds both cursors (init, clear, growth) - a cursor rewound alone elsewhere breaks last == (first + size) mod max_size')
+    nz = 0
+    for n_, f_ in sorted(db.fn.items()):
+        if not f_.blocks or not f_.loc.startswith('htp/htp_list.c'):
+            continue
+        for cur_, oth_ in (('first', 'last'), ('last', 'first')):
+            for b_, i_, w_ in P.field_writes(f_, cur_):
+                if w_.get('op') != '=' or (strip(w_['l']) or {}).get('rec') != 'htp_list_array_t' or not is_lit(w_['r'], 0):
+                    continue
+                nz += 1
+                facts_ = [a for a, e in P.facts_at(f_, b_)]
+                wrap = any(a[0].endswith('->' + cur_) and a[1] == '==' and a[2].endswith('->max_size') for a in facts_) or any(a[2].endswith('->' + cur_) and a[1] == '==' and a[0].endswith('->max_size') for a in facts_)
+                both = any((strip(w2['l']) or {}).get('rec') == 'htp_list_array_t' and w2.get('op') == '=' for b2, i2, w2 in P.field_writes(f_, oth_) if b2 == b_)
+                res.check(wrap or both, 'C17.f', '%s:%s=%s' % (n_, cur_, P.K(w_['r'])), 'at the wrap, or together with the other cursor',
+                          '%s rewinds `%s` alone and not at the wrap (guards: %s): the other cursor keeps its place, so the next push stores where no lookup reads' % (n_, cur_, facts_[-2:]), w_['loc'])
+    res.floor('C17.f', 'rewinds of a ring cursor to 0', nz, 5)
     return res
 
 
